@@ -36,6 +36,8 @@ func init() {
 		"verifYield":       stubYield,
 		"verifMaxAlloc":    vMaxAlloc,
 		"verifParam":       vParam,
+		"verifRender":      vRender,
+		"verifSettle":      vSettle,
 		"verifFreeze":      vFreeze,
 		"verifDeepEqual":   vDeepEqual,
 		"verifDeepEqualExcept": vDeepEqualExcept,
@@ -483,4 +485,123 @@ func vFreeze(it *Interp, fr *frame, fn *ssa.Function, args []Value, site ssa.Ins
 	}
 	walk(args[0])
 	return nil
+}
+
+// verifSettle(): let every other goroutine run until it blocks or finishes
+// (natively: a short sleep). Lets a harness pin down "the other side is
+// already waiting" so that a schedule found by the engine replays natively.
+func vSettle(it *Interp, fr *frame, fn *ssa.Function, args []Value, site ssa.Instruction) Value {
+	s := it.sched
+	for n := 0; n < 10000; n++ {
+		cur := s.cur
+		var others []*G
+		for _, g := range s.gs {
+			if g != cur && s.enabled(g) {
+				others = append(others, g)
+			}
+		}
+		if len(others) == 0 {
+			return nil
+		}
+		next := others[0]
+		if next.blocked {
+			next.blocked = false
+		}
+		s.settling = cur
+		s.switchTo(next)
+		s.settling = nil
+	}
+	return nil
+}
+
+// verifRender(x interface{}): follows gopacket's layerString over the value
+// (Stringer first - pointer receiver when addressable -, then pointer and
+// interface dereference, embedded and exported struct fields, slices of at
+// most 4 elements) and symbolically executes every String()/Error() method it
+// would call. The text itself is not modelled. Natively: gopacket.LayerString.
+func vRender(it *Interp, fr *frame, fn *ssa.Function, args []Value, site ssa.Instruction) Value {
+	x := args[0].(*IfaceV)
+	if x.t == nil {
+		return nil
+	}
+	it.render(fr, x.v, x.t, nil, site, 0)
+	return nil
+}
+
+func (it *Interp) stringMethod(t types.Type) *ssa.Function {
+	for _, name := range []string{"String", "Error"} {
+		sel := it.sh.prog.MethodSets.MethodSet(t).Lookup(nil, name)
+		if sel == nil {
+			continue
+		}
+		sig, ok := sel.Type().(*types.Signature)
+		if !ok || sig.Params().Len() != 0 || sig.Results().Len() != 1 || !isString(sig.Results().At(0).Type()) {
+			continue
+		}
+		if f := it.sh.prog.MethodValue(sel); f != nil {
+			return f
+		}
+	}
+	return nil
+}
+
+func (it *Interp) render(fr *frame, v Value, t types.Type, loc *PtrV, site ssa.Instruction, depth int) {
+	if depth > 10 {
+		return
+	}
+	// Stringer first: pointer receiver when addressable
+	if loc != nil {
+		if f := it.stringMethod(types.NewPointer(t)); f != nil {
+			it.callFunction(fr, f, []Value{loc}, nil, site)
+			return
+		}
+	} else if f := it.stringMethod(t); f != nil {
+		recv := v
+		it.callFunction(fr, f, []Value{recv}, nil, site)
+		return
+	}
+	switch u := t.Underlying().(type) {
+	case *types.Pointer:
+		p := v.(*PtrV)
+		if p.isNil() {
+			return
+		}
+		it.render(fr, it.load(fr, p), u.Elem(), p, site, depth+1)
+	case *types.Interface:
+		iv := v.(*IfaceV)
+		if iv.t == nil {
+			return
+		}
+		it.render(fr, iv.v, iv.t, nil, site, depth+1)
+	case *types.Struct:
+		sv := v.(*StructV)
+		for i := 0; i < u.NumFields(); i++ {
+			f := u.Field(i)
+			if !f.Embedded() && !f.Exported() {
+				continue
+			}
+			var floc *PtrV
+			if loc != nil {
+				floc = &PtrV{obj: loc.obj, path: append(append([]PathElem{}, loc.path...), PathElem{i: i})}
+			}
+			it.render(fr, sv.f[i], f.Type(), floc, site, depth+1)
+		}
+	case *types.Slice:
+		s := v.(*SliceV)
+		if s.base == nil {
+			return
+		}
+		n := it.sliceLen(s)
+		if it.ex.branch(it.tt.Ult(it.tt.Const(64, 4), n), false) {
+			return // more than 4 elements: only the count is printed
+		}
+		cnt := int(it.ex.concretize(n))
+		if _, isByte := u.Elem().Underlying().(*types.Basic); isByte {
+			return
+		}
+		for k := 0; k < cnt; k++ {
+			ep := it.elemPtr(s.base, it.tt.Add(s.off, it.tt.Const(64, uint64(k))))
+			it.render(fr, it.load(fr, ep), u.Elem(), ep, site, depth+1)
+		}
+	}
 }
